@@ -1,7 +1,7 @@
 //! input vectors of the numeric searches; every value is exactly representable in f32, so f32 and f64 see the same data
 use crate::util::Rng;
 
-pub const CLASSES: [&str; 9] = ["normal", "uniform-pos", "impulse", "constant", "tone-on-grid", "tone-off-grid", "alternating", "sparse", "wide-range"];
+pub const CLASSES: [&str; 10] = ["normal", "uniform-pos", "impulse", "constant", "constant-full", "tone-on-grid", "tone-off-grid", "alternating", "sparse", "wide-range"];
 
 fn q(v: f64) -> f64 {
     (v as f32) as f64
@@ -20,6 +20,9 @@ pub fn make(class: &str, n: usize, rng: &mut Rng) -> Vec<(f64, f64)> {
             v
         }
         "constant" => vec![(q(1.25), q(-0.5)); n],
+        // a constant with a full significand in BOTH element types (not quantised to f32): partial sums k*v are inexact, so a
+        // sequential accumulation shows its O(n*eps) error (sums of 1.25 are exact up to k ~ 2^22 in f32, always in f64)
+        "constant-full" => vec![(0.785398163397448_3, -1.141592653589793_1); n],
         "tone-on-grid" => {
             let f = if n > 0 { rng.below(n as u64) } else { 0 };
             (0..n)
